@@ -37,6 +37,18 @@ SHELLSETS = {
 }
 
 
+SHAPES6 = [(0, 0, 1), (0, 3, 2), (1, 2, 1), (2, 4, 2), (3, 6, 1), (0, 7, 1), (0, 1, 1)]
+THOROUGH_PAIRS = [[a, b] for a in SHAPES6 for b in SHAPES6]
+
+
+def shellsets(tier):
+    if tier == "quick":
+        return SHELLSETS
+    d = {k: list(v) for k, v in SHELLSETS.items()}
+    d[2] = d[2] + [p_ for p_ in THOROUGH_PAIRS if p_ not in d[2]]
+    return d
+
+
 def cutoff(sa, sb, tol):
     a = mpmath.mpf(min(sa.exps))
     b = mpmath.mpf(min(sb.exps))
@@ -44,7 +56,7 @@ def cutoff(sa, sb, tol):
 
 
 def bounds(tier):
-    return {"shell_counts": "2..5", "shell_sets": {k: len(v) for k, v in SHELLSETS.items()},
+    return {"shell_counts": "2..5", "shell_sets": {k: len(v) for k, v in shellsets(tier).items()},
             "geometries_per_set": 2 + 2 * len(TOLS), "tolerances": TOLS + [None], "transform": [False, True],
             "type_patterns": "all 2^n for n<=3, 4 patterns above" if tier != "quick" else "2 per set"}
 
@@ -52,7 +64,7 @@ def bounds(tier):
 def configs(tier, seed):
     out = []
     geoms = [("zero", None), ("far", None)] + [(f, t) for t in TOLS for f in (0.99, 1.01)]
-    for n, sets in SHELLSETS.items():
+    for n, sets in shellsets(tier).items():
         for si, _ in enumerate(sets):
             tps = al.type_patterns(n)
             if n > 3:
@@ -66,7 +78,7 @@ def configs(tier, seed):
 
 
 def build(cfg):
-    spec = SHELLSETS[cfg["n"]][cfg["set"]]
+    spec = shellsets("thorough")[cfg["n"]][cfg["set"]]
     f, t = cfg["geom"]
     d = np.array(hvec("scr-dir", 3, 0.3, 1.0)) * np.array([1, -1, 1])
     d /= np.linalg.norm(d)
